@@ -57,6 +57,15 @@ func c08Setup(timeoutMs int) (*ServantProxy, *AdapterProxy) {
 		// records their ids on the same "wire" channel; the peer script still answers through
 		// adp.Recv, as the client receive loop would
 		addr = c08NativeWire()
+		if h, p, err := net.SplitHostPort(addr); err == nil {
+			// (a reconnect notification makes the adapter dial its endpoint again)
+			pt.Host = h
+			pn := 0
+			for _, c := range p {
+				pn = pn*10 + int(c-'0')
+			}
+			pt.Port = int32(pn)
+		}
 	}
 	adp.tarsClient = transport.NewTarsClient(addr, adp, conf)
 	s := &ServantProxy{name: "obj", comm: comm, proto: &protocol.TarsProtocol{}, timeout: timeoutMs, version: 1}
@@ -160,7 +169,7 @@ func c08Peer(adp *AdapterProxy, steps int) {
 				more = false
 			}
 		}
-		switch act := vapi.Choice("peer", 5); act {
+		switch act := vapi.Choice("peer", 6); act {
 		case 0, 1: // reply to the act-th request seen (if any); payload identifies the id
 			if act < len(seen) {
 				go adp.Recv(c08Reply(seen[act], int8(seen[act])))
@@ -172,6 +181,13 @@ func c08Peer(adp *AdapterProxy, steps int) {
 		case 3: // id 0: server push
 			go adp.Recv(c08Reply(0, 98))
 		case 4: // silent
+		case 5: // id 0 with the server's reconnect notification (what GetCloseMsg produces)
+			rsp := requestf.ResponsePacket{IVersion: 1, IRequestId: 0, SResultDesc: reconnectMsg}
+			b := codec.NewBuffer()
+			_ = rsp.WriteTo(b)
+			body := b.ToBytes()
+			n := len(body) + 4
+			go adp.Recv(append([]byte{byte(n >> 24), byte(n >> 16), byte(n >> 8), byte(n)}, body...))
 		}
 	}
 }
